@@ -261,8 +261,8 @@ def call_scatter(impl, case, entry, pos, off=None, grid0='case', weights='case')
         w = weights
     buf, dens = guarded(case, grid0)
     off = case['off'] if off is None else off
-    fn = {'tsc_jit': impl.tsc._tsc_scatter, 'tsc_py': pure(impl.tsc._tsc_scatter),
-          'cic_jit': impl.cic.cic_serial, 'cic_py': pure(impl.cic.cic_serial)}[entry]
+    fn = {'tsc_jit': impl.tsc._tsc_scatter, 'tsc_py': pure(impl.tsc._tsc_scatter, always=True),
+          'cic_jit': impl.cic.cic_serial, 'cic_py': pure(impl.cic.cic_serial, always=True)}[entry]
     try:
         with np.errstate(all='ignore'):
             if entry.startswith('tsc'):
